@@ -199,6 +199,13 @@ def probe(mon, rec, cfg, bank, i, rng):
     lh, rh = bank.supports_hz[i]
     if name in ("tri", "fbank"):
         W = int(rng.choice([int(rng.integers(8, 64)), int(rng.integers(64, 700)), int(rng.integers(700, 2100))]))
+        if rng.random() < 0.5:
+            # other requests on the same bank first, with as many output bins as the one examined
+            # (half spectra of the widths 2(W-1) and 2W-1 have W bins)
+            for W0 in (2 * (W - 1), 2 * W - 1):
+                if W0 >= 2:
+                    bank.get_frequency_response(i, W0, half=True)
+            rec.count("triangle_probes_after_requests_with_equal_bin_count")
         H = np.asarray(bank.get_frequency_response(i, W))
         rec.ev()
         rec.count("triangle_probes")
